@@ -23,7 +23,36 @@ ENTRY_OWNERS = {
 # Explicit panics that are unreachable because of a data-structure invariant the interval domain cannot
 # express.  One named function + condition each, with the reason; the structural part of the reason is
 # re-checked by the rule named in `checked_by` (see rules/C18.py / C02.py).
+def _fi_sum_checked(prog):
+    """reason check for the frequent-items replay: in the deserializer, a checked_add fold whose failure leaves with an
+    error dominates the loop that replays the counters through update_with_count"""
+    for f in prog.fns.values():
+        if f.promoted or f.owner != "frequencies::sketch::FrequentItemsSketch" or not f.item_name.startswith("deserialize"):
+            continue
+        chk = [b for b, site in f.calls() if (site.get("callee") or "").endswith("::checked_add")]
+        upd = [b for b, site in f.calls() if (site.get("callee") or "").endswith("::update_with_count")]
+        if not upd:
+            continue
+        def reach(b):
+            seen, st = set(), list(f.succs(b))
+            while st:
+                x = st.pop()
+                if x not in seen:
+                    seen.add(x)
+                    st.extend(f.succs(x))
+            return seen
+        # the fold loop comes strictly before the replay: it reaches the replay and cannot be re-entered from it
+        if chk and all(any(u in reach(c) and c not in reach(u) for c in chk) for u in upd):
+            return True
+        return False
+    return False
+
+
 ACCEPTED_INVARIANTS = {
+    # (function, operand label): (reason, verifier of the structural part of the reason)
+    ("frequencies::sketch::FrequentItemsSketch::<T>::update_with_count", "self.stream_weight,count"): (
+        "during deserialization the counters replayed through update_with_count were summed with checked_add first (the sum fits u64) and "
+        "the stream weight starts at 0; the interval domain cannot carry a bound on a sum over a vector", _fi_sum_checked),
 }
 
 
@@ -67,6 +96,7 @@ def run(prog, ctx):
     an = absint.Analysis(prog, scope=scope)
     an.run(entries=set(ents))
     kinds = {}
+    accepted = []
     n_tainted = 0
     for o in an.obligations:
         b = srcs(o.taint)
@@ -88,9 +118,11 @@ def run(prog, ctx):
             if o.kind == "alloc":
                 detail = "%s[elem=%s]" % (o.detail, o.operands[1][1])
             key = "C14|%s|%s|%s|%s|src=%s" % (o.kind, o.fn, detail, o.label, ",".join(sorted(set(short_src(t) for t in b))))
-            if (o.fn, o.label) in ACCEPTED_INVARIANTS:
+            acc = ACCEPTED_INVARIANTS.get((o.fn, o.label))
+            if acc is not None and acc[1](prog):
                 kinds[o.kind][3] += 1
                 res.undecided += 1
+                accepted.append({"site": o.fn, "operand": o.label, "reason": acc[0]})
                 continue
             kinds[o.kind][2] += 1
             rule = {"shift": "C14.O1", "alloc": "C14.O2", "bounds": "C14.O3", "index": "C14.O3", "overflow": "C14.O4",
@@ -104,6 +136,7 @@ def run(prog, ctx):
     res.obligations = n_tainted
     res.extra["per_sink_class"] = {k: {"obligations": v[0], "discharged": v[1], "violations": v[2], "undecided": v[3]} for k, v in kinds.items()}
     res.extra["analysis"] = an.stats
+    res.extra["accepted_invariants"] = accepted
     res.rule("C14.sinks", n_tainted, 300, "byte-tainted sink obligations reachable from the deserialize entries")
     res.explanation = ("interprocedural interval + taint abstract interpretation (MIR) over the %d functions reachable from the %d "
                        "deserialize entry points; every byte-tainted shift, allocation, index, checked arithmetic, division, explicit panic and "
